@@ -246,13 +246,13 @@ Proof. intros. eapply refused_resume_unchanged; eauto. apply reach_Inv. Qed.
 
 (* ---- facts about the constants scraped from the source *)
 Lemma gen_facts :
-  DESTROY_UNREGISTERS_FIRST = false /\ RESUME_ROLLS_BACK_ARGS = true /\ MCO_ZERO_MEMORY = true /\ 0 < STORAGE_SIZE /\
+  DESTROY_UNREGISTERS_FIRST = false /\ RESUME_ROLLS_BACK_ARGS = true /\ GC_REGISTERS_WHOLE_CORO_BLOCK = true /\ MCO_ZERO_MEMORY = true /\ 0 < STORAGE_SIZE /\
   NoDup (map cstate_code all_cstate) /\ NoDup (map mres_code all_mres) /\ NoDup (map describe all_mres) /\
   status_of_state Suspended = "suspended"%string /\ status_of_state Running = "running"%string /\
   status_of_state Normal = "normal"%string /\ status_of_state Dead = "dead"%string /\
   STATUS_NIL = "dead"%string /\ STATUS_MAIN_RUNNING = "running"%string /\ STATUS_MAIN_NORMAL = "normal"%string.
 Proof.
-  split; [apply destroy_order_fixed|]. split; [apply resume_rolls_back|]. split; [apply zero_memory_on|]. split; [apply storage_size_pos|].
+  split; [apply destroy_order_fixed|]. split; [apply resume_rolls_back|]. split; [apply gc_registers_whole_block|]. split; [apply zero_memory_on|]. split; [apply storage_size_pos|].
   split; [apply state_codes_distinct|]. split; [apply result_codes_distinct|].
   split; [apply descriptions_distinct|]. apply status_strings_documented.
 Qed.
